@@ -23,7 +23,7 @@ def write_replay(prop, failure, unit_run, witness):
         'property': prop,
         'failed_obligation': failure['id'],
         'kind': failure['kind'],
-        'verifier': 'verus',
+        'verifier': {'kani': 'kani (cbmc)', 'bounded': 'exhaustive enumeration over the stated bound (bounded stand-in, not the deductive verifier)'}.get(failure.get('kind'), 'verus'),
         'verifier_message': failure['message'],
         'verifier_output': failure['rendered'],
         'repo_location': failure.get('repo'),
